@@ -91,6 +91,7 @@ spec {
         r is Ok <==> 0 <= old(self).pos() + offset <= old(self).bytes().len(),
         r is Ok ==> final(self).pos() == old(self).pos() + offset,
         r is Ok && offset >= 0 ==> final(self).rest() == tail_of(old(self).rest(), offset as int),
+        r is Ok ==> final(self).rest().len() == old(self).rest().len() - offset,
         offset >= 0 ==> (r is Ok <==> offset <= old(self).rest().len()),
         r is Err ==> final(self).pos() == old(self).pos() && final(self).rest() == old(self).rest() && r->Err_0.kind == PacketBad,
 }
@@ -108,6 +109,7 @@ spec {
         r is Ok <==> old(self).rest().len() >= T::width(),
         r is Ok ==> final(self).pos() == old(self).pos() + T::width()
                  && final(self).rest() == tail_of(old(self).rest(), T::width() as int)
+                 && final(self).rest().len() == old(self).rest().len() - T::width()
                  && r->Ok_0 == T::decode(head_of(old(self).rest(), T::width() as int)),
         r is Err ==> final(self).pos() == old(self).pos() && final(self).rest() == old(self).rest() && r->Err_0.kind == PacketUnderflow,
 }
@@ -132,16 +134,23 @@ spec {
         r is Ok ==> final(self).pos() == old(self).pos() + D::consumed(old(self).rest(), delim_of::<D>(until))
                  && r->Ok_0@ == D::text(old(self).rest(), delim_of::<D>(until)),
         r is Ok <==> D::decodes(old(self).rest(), delim_of::<D>(until)),
-        r is Ok ==> final(self).rest() == tail_of(old(self).rest(), D::consumed(old(self).rest(), delim_of::<D>(until)) as int),
+        r is Ok ==> final(self).rest() == tail_of(old(self).rest(), D::consumed(old(self).rest(), delim_of::<D>(until)) as int)
+                 && final(self).rest().len() <= old(self).rest().len()
+                 && (old(self).rest().len() > 0 ==> final(self).rest().len() < old(self).rest().len()),
+        r is Err ==> final(self).rest() == old(self).rest(),
         // NUL/byte-delimited UTF-8 strings, stated over plain (non trait-dispatched) functions
         D::is_utf8() ==> (r is Ok <==> utf8_ok(old(self).rest(), D::d0(delim_of::<D>(until))))
             && (r is Ok ==> r->Ok_0@ == utf8_txt(old(self).rest(), D::d0(delim_of::<D>(until)))
                          && final(self).rest() == tail_of(old(self).rest(), utf8_consumed(old(self).rest(), D::d0(delim_of::<D>(until))) as int)),
+        D::is_lp() ==> (r is Ok <==> lp_ok(old(self).rest(), D::d0(delim_of::<D>(until))))
+            && (r is Ok ==> r->Ok_0@ == lp_txt(old(self).rest(), D::d0(delim_of::<D>(until)))
+                         && final(self).rest() == tail_of(old(self).rest(), lp_consumed(old(self).rest(), D::d0(delim_of::<D>(until))) as int)),
 }
 body_start {
     proof {
         assert(delim_of::<D>(until) == until.unwrap_or(D::DELIMITER));
         reveal(tail_of); reveal(Buffer::rest);
+        D::lemma_is_lp(old(self).rest(), delim_of::<D>(until));
         D::lemma_is_utf8(old(self).rest(), delim_of::<D>(until));
     }
 }
@@ -315,6 +324,12 @@ pub trait StringDecoder {
         ensures Self::is_utf8() ==> Self::consumed(data, d) == utf8_consumed(data, Self::d0(d))
                                  && Self::text(data, d) == utf8_txt(data, Self::d0(d))
                                  && Self::decodes(data, d) == utf8_ok(data, Self::d0(d));
+    /// true for the length-prefixed UTF-8 decoder (plain model functions lp_*)
+    spec fn is_lp() -> bool;
+    proof fn lemma_is_lp(data: Seq<u8>, d: Self::Delimiter)
+        ensures Self::is_lp() ==> Self::consumed(data, d) == lp_consumed(data, Self::d0(d))
+                               && Self::text(data, d) == lp_txt(data, Self::d0(d))
+                               && Self::decodes(data, d) == lp_ok(data, Self::d0(d));
     /// wire form of a terminated string `txt` (encoder side of the reference model) and its side condition
     spec fn wire(txt: Seq<char>, d: Self::Delimiter) -> Seq<u8>;
     spec fn wire_ok(txt: Seq<char>, d: Self::Delimiter) -> bool;
@@ -331,6 +346,7 @@ pub trait StringDecoder {
             r is Ok <==> Self::decodes(data@, delimiter),
             r is Ok ==> *final(cursor) == *old(cursor) + Self::consumed(data@, delimiter)
                      && Self::consumed(data@, delimiter) <= data@.len()      // C17: never past the packet
+                     && (data@.len() > 0 ==> Self::consumed(data@, delimiter) > 0)   // progress (termination of parse loops)
                      && r->Ok_0@ == Self::text(data@, delimiter),
             r is Err ==> *final(cursor) == *old(cursor);
 }
@@ -352,6 +368,8 @@ impl StringDecoder for Utf8Decoder {
     open spec fn is_utf8() -> bool { true }
     open spec fn d0(d: [u8; 1]) -> u8 { d@[0] }
     proof fn lemma_is_utf8(data: Seq<u8>, d: [u8; 1]) { }
+    open spec fn is_lp() -> bool { false }
+    proof fn lemma_is_lp(data: Seq<u8>, d: [u8; 1]) { }
 /*@ item file=crates/lib/src/buffer.rs impl="impl StringDecoder for Utf8Decoder" kind=type name=Delimiter @*/
 /*@ item file=crates/lib/src/buffer.rs impl="impl StringDecoder for Utf8Decoder" kind=const name=DELIMITER @*/
     // reference model (property C17): consume the string and its delimiter, or the rest if unterminated
@@ -414,6 +432,13 @@ pub open spec fn lp_end(data: Seq<u8>, d: u8) -> int {
     let st = skip_take(data, 1, data[0] as int);
     if first_index_of(st, d) < st.len() { first_index_of(st, d) } else { data[0] as int }
 }
+pub open spec fn lp_consumed(data: Seq<u8>, d0: u8) -> nat { (1 + lp_end(data, d0)) as nat }
+pub open spec fn lp_txt(data: Seq<u8>, d0: u8) -> Seq<char> { utf8_text(data.subrange(1, 1 + lp_end(data, d0))) }
+pub open spec fn lp_ok(data: Seq<u8>, d0: u8) -> bool {
+    data.len() >= 1 && 1 + lp_end(data, d0) <= data.len() && utf8_valid(data.subrange(1, 1 + lp_end(data, d0)))
+}
+/// wire form of a length-prefixed string
+pub open spec fn lpstr(txt: Seq<char>) -> Seq<u8> { seq![utf8_bytes(txt).len() as u8] + utf8_bytes(txt) }
 /*@ present file=crates/lib/src/buffer.rs text="impl StringDecoder for Utf8LengthPrefixedDecoder {" @*/
 impl StringDecoder for Utf8LengthPrefixedDecoder {
 /*@ item file=crates/lib/src/buffer.rs impl="impl StringDecoder for Utf8LengthPrefixedDecoder" kind=type name=Delimiter @*/
@@ -423,11 +448,11 @@ impl StringDecoder for Utf8LengthPrefixedDecoder {
     open spec fn is_utf8() -> bool { false }
     open spec fn d0(d: [u8; 1]) -> u8 { d@[0] }
     proof fn lemma_is_utf8(data: Seq<u8>, d: [u8; 1]) { }
-    open spec fn consumed(data: Seq<u8>, d: [u8; 1]) -> nat { (1 + lp_end(data, d@[0])) as nat }
-    open spec fn text(data: Seq<u8>, d: [u8; 1]) -> Seq<char> { utf8_text(data.subrange(1, 1 + lp_end(data, d@[0]))) }
-    open spec fn decodes(data: Seq<u8>, d: [u8; 1]) -> bool {
-        data.len() >= 1 && 1 + lp_end(data, d@[0]) <= data.len() && utf8_valid(data.subrange(1, 1 + lp_end(data, d@[0])))
-    }
+    open spec fn is_lp() -> bool { true }
+    proof fn lemma_is_lp(data: Seq<u8>, d: [u8; 1]) { }
+    open spec fn consumed(data: Seq<u8>, d: [u8; 1]) -> nat { lp_consumed(data, d@[0]) }
+    open spec fn text(data: Seq<u8>, d: [u8; 1]) -> Seq<char> { lp_txt(data, d@[0]) }
+    open spec fn decodes(data: Seq<u8>, d: [u8; 1]) -> bool { lp_ok(data, d@[0]) }
     open spec fn wire(txt: Seq<char>, d: [u8; 1]) -> Seq<u8> { seq![utf8_bytes(txt).len() as u8] + utf8_bytes(txt) }
     open spec fn wire_ok(txt: Seq<char>, d: [u8; 1]) -> bool { utf8_bytes(txt).len() <= 255 && no_byte(utf8_bytes(txt), d@[0]) }
     proof fn lemma_wire(txt: Seq<char>, d: [u8; 1], tail: Seq<u8>) {
@@ -453,6 +478,27 @@ body_start {
 @*/
 }
 
+/// reading a length-prefixed string from `cat(lpstr(txt), t)` (delimiter 0 never occurs inside): yields txt, leaves t
+pub broadcast proof fn lemma_lp_read(txt: Seq<char>, t: Seq<u8>, z: u8)
+    requires no_nul(txt), utf8_bytes(txt).len() <= 255
+    ensures
+        #![trigger lp_consumed(cat(lpstr(txt), t), z)]
+        #![trigger lp_ok(cat(lpstr(txt), t), z)]
+        z == 0u8 ==> lp_consumed(cat(lpstr(txt), t), z) == lpstr(txt).len()
+                  && lp_ok(cat(lpstr(txt), t), z)
+                  && lp_txt(cat(lpstr(txt), t), z) == txt,
+{
+    if z == 0u8 {
+        let d: [u8; 1] = [0u8];
+        axiom_utf8_no_nul(txt);
+        Utf8LengthPrefixedDecoder::lemma_wire(txt, d, t);
+        lemma_cat_is_add(lpstr(txt), t);
+    }
+}
+pub broadcast proof fn lemma_default_delimiter_lp()
+    ensures #[trigger] delim_of::<Utf8LengthPrefixedDecoder>(None::<[u8; 1]>)@[0] == 0u8
+{}
+pub broadcast group group_lp { lemma_lp_read, lemma_default_delimiter_lp, group_stream }
 /*@ present file=crates/lib/src/buffer.rs text="pub struct Utf16Decoder<B: ByteOrder> { _marker: PhantomData<B>, }" @*/
 pub struct Utf16Decoder<B: ByteOrder> { _marker: PhantomData<B> }
 pub open spec fn u16_units(le: bool, data: Seq<u8>) -> Seq<u16> {
@@ -467,6 +513,8 @@ impl<B: ByteOrder> StringDecoder for Utf16Decoder<B> {
     open spec fn is_utf8() -> bool { false }
     open spec fn d0(d: [u8; 2]) -> u8 { d@[0] }
     proof fn lemma_is_utf8(data: Seq<u8>, d: [u8; 2]) { }
+    open spec fn is_lp() -> bool { false }
+    proof fn lemma_is_lp(data: Seq<u8>, d: [u8; 2]) { }
     open spec fn consumed(data: Seq<u8>, d: [u8; 2]) -> nat {
         if first_pair_index(data, d@) < data.len() / 2 { (2 * first_pair_index(data, d@) + 2) as nat } else { data.len() }
     }
@@ -502,6 +550,9 @@ after "B::read_u16_into" {
 @*/
 }
 
+// path aliases so that extracted code may keep writing `byteorder::ByteOrder`, `buffer::StringDecoder`, ...
+pub mod byteorder { pub use crate::{ByteOrder, LittleEndian, BigEndian}; }
+pub mod buffer { pub use crate::{Buffer, BufferRead, StringDecoder, Utf8Decoder, Utf8LengthPrefixedDecoder, Utf16Decoder}; }
 //@ body-end
 } // verus!
 fn main() {}
